@@ -4,6 +4,7 @@ use serde_json::{json, Value};
 use std::io::{BufRead, Write};
 use std::panic::{catch_unwind, AssertUnwindSafe};
 
+mod ops_blob;
 mod ops_chain;
 mod ops_codec;
 mod ops_coord;
@@ -21,6 +22,9 @@ mod ops_wal;
 fn dispatch(req: &Value) -> Value {
     let op = req["op"].as_str().unwrap_or("");
     if let Some(v) = ops_codec::handle(op, req) {
+        return v;
+    }
+    if let Some(v) = ops_blob::handle(op, req) {
         return v;
     }
     if let Some(v) = ops_graph::handle(op, req) {
